@@ -22,7 +22,7 @@ For each change k = 1..{count}:
  1. make the edit in the worktree; save `git -C /tmp/wt/{name} diff > /tmp/wt/{name}_out/<k>/patch.diff`
  2. write /tmp/wt/{name}_out/<k>/demo.py — a small self-contained program (uses PYTHONPATH to pick the tree) that exits 0 on the clean tree and exits non-zero (assertion failure) with your change applied, demonstrating the property violation through the public API
  3. run the relevant existing tests with the change applied: `cd /tmp/wt/{name} && PYTHONPATH=/tmp/wt/{name}/src /venv/bin/python -m pytest -q -p no:cacheprovider --timeout=900 tests/<relevant files>` (the stable tests are: test_adding_to_parameterlist, test_compile_canary, test_epijson::test_read_epijson, test_input_symbols, test_loss_types (the *Failures* tests and test_all_Loss_functions_produce_different_costs), test_model_existing, test_model_vector, test_ode_decomposition, test_ode_func, test_ode_simulate_jump, test_ode_simulate_param, test_package_basics, test_sir_estimate::test_single_state_func; other tests in the repo already fail on the clean tree and do not count). Some tests are slow (a few minutes); run at least the files that touch the code you changed and say which you ran.
- 4. verify demo.py passes on the clean tree (`git -C /tmp/wt/{name} stash` or `checkout -- .`, run, then re-apply) and fails with the change
+ 4. verify demo.py passes on the clean tree (save the diff, `git -C /tmp/wt/{name} checkout -- .`, run, then `git apply` the saved diff again; NEVER use `git stash` — the stash is shared between worktrees) and fails with the change
  5. write /tmp/wt/{name}_out/<k>/notes.md: what you changed, why it breaks the property, what it needs in order to manifest, which tests you ran and their result
  6. restore the worktree to clean (`git -C /tmp/wt/{name} checkout -- .`) before the next change
 
